@@ -188,6 +188,86 @@ func errCause(v ssa.Value) string {
 	return ""
 }
 
+// errCauseVia is errCause of the idx-th operand of ret over the paths explored by r: a phi is
+// resolved to the incoming values of the edges that were taken; "" unless they all agree.
+func errCauseVia(r *kit.Reached, ret *ssa.Return, idx int) string {
+	var rec func(v ssa.Value, at ssa.Instruction, depth int) string
+	rec = func(v ssa.Value, at ssa.Instruction, depth int) string {
+		if depth > 8 {
+			return ""
+		}
+		switch x := v.(type) {
+		case *ssa.Call:
+			id := kit.CallID(x)
+			if strings.HasSuffix(id, "errors.Wrap") || strings.HasSuffix(id, "errors.Wrapf") {
+				return rec(x.Call.Args[0], at, depth+1)
+			}
+			return ""
+		case *ssa.Phi:
+			rs := r.Resolve(v, at)
+			if len(rs) == 0 || (len(rs) == 1 && rs[0].V == v) {
+				return ""
+			}
+			c := rec(rs[0].V, rs[0].At, depth+1)
+			for _, y := range rs[1:] {
+				if rec(y.V, y.At, depth+1) != c {
+					return ""
+				}
+			}
+			return c
+		}
+		return errCause(v)
+	}
+	return rec(kit.RetOperand(ret, idx), ret, 0)
+}
+
+// boolDecision is one place where a function decides a boolean result: a return of a constant, or
+// an edge on which a constant flows into the phi that is returned (the shape left by expanding a
+// helper, or by `result := …; return result`).
+type boolDecision struct {
+	Val  bool
+	Ret  *ssa.Return
+	Edge *kit.Edge
+}
+
+func (d boolDecision) taken(r *kit.Reached) bool {
+	if d.Edge != nil {
+		return r.Edges[*d.Edge] && r.Has(d.Ret)
+	}
+	return r.Has(d.Ret)
+}
+
+// boolDecisions resolves the idx-th operand of ret; ok is false when some path returns a value that
+// is not a constant.
+func boolDecisions(ret *ssa.Return, idx int) (out []boolDecision, ok bool) {
+	ok = true
+	seen := map[ssa.Value]bool{}
+	var rec func(v ssa.Value, e *kit.Edge)
+	rec = func(v ssa.Value, e *kit.Edge) {
+		if b, isC := kit.ConstBool(v); isC {
+			out = append(out, boolDecision{b, ret, e})
+			return
+		}
+		ph, isPhi := v.(*ssa.Phi)
+		if !isPhi || seen[v] {
+			ok = false
+			return
+		}
+		seen[v] = true
+		for i, inc := range ph.Edges {
+			pred := ph.Block().Preds[i]
+			for si, sc := range pred.Succs {
+				if sc == ph.Block() {
+					rec(inc, &kit.Edge{From: pred, Succ: si})
+					break
+				}
+			}
+		}
+	}
+	rec(kit.RetOperand(ret, idx), nil)
+	return
+}
+
 // dedupe makes construct keys unique by appending #n to repeats, in source order.
 type keyer struct{ seen map[string]int }
 
